@@ -124,13 +124,14 @@ def changeUnit (pe : PE) (v : U) : Option PE :=
       if pe.error.isEmpty then none
       else some { unit := v, error := pe.error.map (fun x => f.q * x), piPow := pe.piPow + f.piPow }
 
-/-- `process_data` called again on an existing metric object (`APE` / `RPE`): the fresh values —
-which are in the relation's native unit — replace `error`; the code does **not** reset `unit`
-(it is only set in `__init__`), so a unit installed by an earlier `change_unit` persists. -/
-def processData (pe : PE) (vals : List Rat) : PE := { unit := pe.unit, error := vals, piPow := 0 }
+/-- `process_data` called (again) on a metric object (`APE` / `RPE`, after fix 46322c3): the fresh
+values — which are in the relation's native unit — replace `error`, and `unit` is reset to that
+native unit (`self.unit = self.native_unit`), whatever an earlier `change_unit` installed. -/
+def processData (native : U) (_pe : PE) (vals : List Rat) : PE := { unit := native, error := vals, piPow := 0 }
 
-/-- what the property statement needs instead: the unit names the unit of the fresh values -/
-def processDataReset (native : U) (_pe : PE) (vals : List Rat) : PE := { unit := native, error := vals, piPow := 0 }
+/-- the pinned code (before fix 46322c3): `unit` was only set in `__init__`, so a unit installed
+by an earlier `change_unit` persisted over the fresh native values -/
+def processDataOld (pe : PE) (vals : List Rat) : PE := { unit := pe.unit, error := vals, piPow := 0 }
 
 /-- classification of the model's behaviour on a probe array, comparable with `Gen.Units.observed` -/
 def classify (u v : U) : Obs :=
